@@ -35,6 +35,8 @@ structure CW (K O : Type) where
   stopped : Option StopKind := none
   /-- ghost: everything distributed to subscribers -/
   published : List (Ev O) := []
+  /-- ghost: the cache content at the moment Ready() was closed (what a subscriber reads before its first event) -/
+  base : Items K O := []
   /-- ghost: indices of server changes that overflowed a buffer since the last list (never applied) -/
   lost : List Nat := []
 
@@ -95,7 +97,8 @@ def CW.step (w : CW K O) : CLabel O → CW K O
   | .listApplied j plist =>
     let r := doSync key ver acc w.items plist
     { w with items := r.1, ready := true, live := true, a := j, b := j, c := j,
-             published := if w.ready then w.published ++ r.2 else w.published, lost := [] }
+             published := if w.ready then w.published ++ r.2 else w.published,
+             base := if w.ready then w.base else r.1, lost := [] }
   | .listFail k => { w with stopped := some k, live := false }
   | .close => { w with stopped := some (w.stopped.getD .closed), live := false }
 
